@@ -26,6 +26,29 @@ def anchors(a: Anchors):
            env={"self.scale": ("scale", "Q"), "tuple(np.asarray(max_shifts) / self.scale)": None} and
                {"self.scale": ("scale", "Q"), "np.asarray(max_shifts)": ("m", "Q")}, want="Q",
            post=lambda n: n.args[0] if isinstance(n, ast.Call) and ast.unparse(n.func) == "tuple" else n)
+    # units of the search range on every path into a model's align(): nanometres are divided by the scale exactly once
+    def units_flow(tree, src):
+        from translate import find_def
+        t_al = norm(ast.unparse(find_def(tree, "LoaderBase.align")))
+        t_mt = norm(ast.unparse(find_def(tree, "LoaderBase.align_multi_templates")))
+        t_nt = norm(ast.unparse(find_def(tree, "LoaderBase.align_no_template")))
+        ok = lambda c: "true" if c else "false"
+        # (1) align -> its own tasks: px = max_shifts / scale, computed after the multi-template hand-over
+        single = (t_al.count("_max_shifts_px=tuple(np.asarray(max_shifts)/self.scale)") == 1 and "max_shifts=_max_shifts_px,output_shape=model.input_shape" in t_al
+                  and t_al.count("/self.scale") == 2)          # max_shifts once, pos once
+        # (2) align -> align_multi_templates: nanometres and all model options are handed over untouched
+        handover = ("returnself.align_multi_templates(list(model.template),mask=mask,max_shifts=max_shifts,alignment_model=alignment_model,backend=backend,**align_kwargs)" in t_al
+                    and t_al.index("returnself.align_multi_templates(") < t_al.index("_max_shifts_px="))
+        # (3) align_multi_templates: one division
+        multi = (t_mt.count("_max_shifts_px=tuple(np.asarray(max_shifts)/self.scale)") == 1 and "max_shifts=_max_shifts_px" in t_mt and t_mt.count("/self.scale") == 2)
+        # (4) align_no_template hands nanometres to align
+        notmpl = "max_shifts=max_shifts" in t_nt and "/self.scale" not in t_nt and "self.align(" in t_nt.replace("returnself.align(", "self.align(")
+        return ("(* number of divisions of max_shifts by the scale on the way to model.align, per entry: 0 align (one template), 1 align (several templates),\n"
+                "   2 align_multi_templates, 3 align_no_template; -1 = not recognised *)\n"
+                f"Definition max_shift_divisions (entry : Z) : Z :=\n  match entry with\n  | 0 => if {ok(single)} then 1 else -1\n"
+                f"  | 1 => if {ok(handover)} && {ok(multi)} then 1 else -1\n  | 2 => if {ok(multi)} then 1 else -1\n"
+                f"  | 3 => if {ok(notmpl)} && {ok(single)} then 1 else -1\n  | _ => -1\n  end.")
+    a.raw("max_shift_divisions", LB, "", "how often max_shifts is divided by the scale before it reaches a model, per entry point", units_flow)
     for fn in ("_post_align", "_post_align_multi_templates"):
         a.fact(f"{fn.strip('_')}_uses_linear_transform", LB, f"LoaderBase.{fn}", "rotator = from_quat(local_rot); linear_transform(local_shifts, rotator)",
                lambda f: all(t in norm(ast.unparse(f)) for t in
